@@ -26,6 +26,8 @@ CLAIMED.update({
          "JSON part only so far (XML part pending); reader = oracles/provjson_reader.py, shares no code with prov"),
  "C06": ("(i) SMT kernel: for every string of <=8 (quick) / <=16 (thorough) code points the literal printed by the real escaping code is accepted by a transducer of the PROV-N STRING_LITERAL grammar and denotes the source string - one z3 query per call site, all strings at once; (ii) path-complete exploration of get_provn() over the C01 document space, each path's text parsed by an independent recursive-descent PROV-N parser (W3C grammar) and compared strictly", "4/C06",
          "kernel: for-all within the length bound; expressions: one solver-chosen representative per path (text is pinned before parsing); floats/datetimes from catalogues; PROV-N-inexpressible records (identified/attributed specialization, alternate, membership, mention) excluded"),
+ "C15": ("(i) SMT kernels: for every identifier / label / attribute value / attribute name / URI of <=N code points, the label and URL strings the real prov.dot code passes to pydot are single well-formed DOT IDs (Graphviz scanner rules for quoted strings; HTML-like labels whose markup skeleton is exactly the template's and whose entity-decoded data is exactly the source) - one z3 query per call site covering all strings; (ii) path-complete exploration of prov_to_dot over documents x 16 option combinations x directions, each witness rendered by real pydot and parsed by Graphviz (dot -Tdot_json) and checked for nodes/clusters/edge paths/annotations", "4/C15",
+         "kernels: for-all within N (quoted 6/12, HTML 3/6); structure: one representative per path, Graphviz 2.43 as acceptance oracle; hostile label/value texts from a catalogue; one known finding (top-level node drawn inside a bundle cluster)"),
 })
 NA = {}
 props = [json.loads(l) for l in open(os.path.join(V, "properties.jsonl"))]
